@@ -16,7 +16,7 @@ from concurrent.futures import ThreadPoolExecutor
 from pathlib import Path
 
 import translate_proc as TP
-from lib import Check, COMMON_TRUSTED, NCPU, REPO, VERIF, coqc_file, gen_dir, run_py
+from lib import Check, COMMON_TRUSTED, NCPU, REPO, VERIF, coqc_file, gen_dir, known_for, run_py
 
 PROP = "C12"
 RUNNER = VERIF / "harness" / "c12_run.py"
@@ -36,8 +36,44 @@ GUI3 = ('Item.create(it, stone, "Name"); Item.create(it2, dirt, "N2"); Item.crea
         'GUI.template(my_gui, ["abcd"], block); GUI.registers(my_gui, "a", [it], $v); GUI.registers(my_gui, "b", [it2,it3,it4], $v); GUI.create(my_gui);')
 
 
-def P(pid, src, header=None, cert=FULL, envs=(), pf="48", ns="TEST", existing=True, tags=()):
-    return dict(id=pid, src=src, header=header, cert=cert, envs=list(envs), pack_format=pf, namespace=ns, existing=existing, tags=list(tags))
+def P(pid, src, header=None, cert=FULL, envs=(), pf="48", ns="TEST", existing=True, tags=(), files=None, pre_files=None, dir=None, only=None):
+    """files: further project files; pre_files: content of the output folder before the compile (CLI); dir: project folder (two entries with
+    the same dir are two edits of one project, as in the interactive shell / autocompile); only: entry points the project makes sense for"""
+    d = dict(id=pid, src=src, header=header, cert=cert, envs=list(envs), pack_format=pf, namespace=ns, existing=existing, tags=list(tags))
+    if files:
+        d["files"] = dict(files)
+    if pre_files:
+        d["pre_files"] = dict(pre_files)
+    if dir:
+        d["dir"] = dir
+    if only:
+        d["only"] = list(only)
+    return d
+
+
+# ---- strengthening round 1: every way the header offers to MUTATE a container of the Header singleton ...
+INC_FILES = {"inc.hjmc": '#define INC 9\n#credit "from inc"\n#include "sub/inc2"\n', "sub/inc2.hjmc": "#define INC2 10\n#command inccmd\n"}
+HEADER_MORE = ('#define EMPTY\n#define N 7\n#define GREET(x) say x\n#deepdefine DD(x) say x\n#define TWICE(a, b) a b\n#env dev\n#env prod\n'
+               '#bind __namespace__ NSNAME\n#bind __namehash6__ six h6\n#bind __UUID__ uid\n#bind EVAL ev\n#bind NOT nt\n#enum E A B C\n#enum F 5 X Y\n'
+               '#credit "first"\n#credit\n#credit "third"\n#override otherns\n#override thirdns\n#link otherpack\n#link linkpack\n'
+               '#command mycmd\n#command mycmd2\n#command execute if mykind\n#command execute if mykind2\n#del give\n#del say\n'
+               '#resource myres\n#resource my.res2\n#uninstall\n#include "inc"\n#show_private_command\n#forcebst\n')
+MORE_SRC = ('function uninstall(){ say "bye"; } Team.add(red); Bossbar.add(bar, "Name"); Scoreboard.add(obj); '
+            'function f(){ GREET("hi"); DD("d"); $n = N; $e = E.B; $g = F.Y; $i = INC; $j = INC2; mycmd 1 2; mycmd2 3; inccmd 4; $d = dev; $p = prod; '
+            'otherpack.api(); linkpack.api2(); if (mykind entity @s && mykind2 entity @p) { say "k"; } scoreboard players set give obj 1; '
+            'tellraw @a NSNAME; tellraw @a six; data merge entity uid {}; if ($n matches 1..N) { say "m"; } } '
+            'function otherns.g(){ say "o"; } function thirdns.h(){ say "t"; } new myres(x.y) {"a":1} new my.res2(z) {"b":2}')
+STALE = {"data/TEST/function/stale.mcfunction": "say stale", "data/TEST/keep/a.txt": "A", "data/TEST/keep2/deep/b.txt": "B",
+         "data/minecraft/tags/function/load.json": '{"values": ["other:load", "TEST:__load__"]}', "data/minecraft/keepmc/c.txt": "C",
+         "data/otherns/function/old.mcfunction": "say old", "data/thirdns/function/old.mcfunction": "say old3", "data/otherns/keep3/d.txt": "D"}
+ASSETS = {"assets/pack.png": "PNG", "assets/data/extra/function/x.mcfunction": "say x", "assets/data/extra/function/y/z.mcfunction": "say z"}
+BUILTIN_ITEMS = 'Item.create(bit, stone, "B"); '
+# ---- ... real multi-file projects: wildcard imports over several files with order-visible load-level content, nested folders
+LIB = {f"lib/{n}.jmc": f'say "load {n}"; ${n} = {k}; function lib.{n}() {{ say "{n}"; }}' for k, n in enumerate(["alpha", "bravo", "charlie", "delta", "echo"])}
+LIB.update({"lib/sub/foxtrot.jmc": 'say "load foxtrot"; function lib.sub.foxtrot() { say "f"; }',
+            "lib/sub/deep/golf.jmc": 'say "load golf"; Scoreboard.add(golf);', "lib/sub/deep/hotel.jmc": 'say "load hotel"; Team.add(hotel);',
+            "lib2/india.jmc": 'say "load india"; import "../lib/sub/*";', "lib2/juliet.jmc": 'say "load juliet";', "lib2/kilo.jmc": 'say "load kilo";'})
+
 
 
 POOL = [
@@ -70,17 +106,79 @@ POOL = [
     P("other_ns", BODY, ns="mypack", cert="VAR=vv\nINT=ii", tags=["lacks-keys", "sets-names"]),
     P("bad_condition", 'function f(){ if (nosuchcond entity @s) { say "x"; } }', tags=["fails", "sets"]),
     P("first_join", 'Player.firstJoin(()=>{ say "hi"; }); Player.join(()=>{ say "again"; });'),
+    # --- strengthening round 1 ---------------------------------------------------------------------------------------------------
+    # mutators of every Header container, all directive forms (one project, folder shared with its edits below)
+    P("header_more", MORE_SRC, header=HEADER_MORE, envs=["dev"], files=INC_FILES, dir="hdr_proj", tags=["header", "mutator"]),
+    # observers: USE what a header would have to declare, without declaring it (result = the diagnostic, or different output)
+    P("use_condition", 'function f(){ if (mykind entity @s) { say "x"; } }', tags=["observer"]),
+    P("use_command", 'function f(){ mycmd 1 2; }', tags=["observer"]),
+    P("use_execute_cmd", 'function f(){ inccmd 4; }', tags=["observer"]),
+    P("use_del", 'function f(){ scoreboard players set give obj 1; }', tags=["observer"]),
+    P("use_link", 'function f(){ otherpack.api(); }', tags=["observer"]),
+    P("use_override", 'function otherns.g(){ say "o"; } function f(){ otherns.g(); }', tags=["observer"]),
+    P("use_resource", 'new myres(x.y) {"a":1}', tags=["observer"]),
+    P("use_macro", 'function f(){ $n = N; }', tags=["observer"]),
+    P("use_number_macro", 'function f(){ if ($n matches 1..N) { say "m"; } }', tags=["observer"]),
+    P("redefine", 'function f(){ GREET("yo"); $n = N; $e = E.A; }', header='#define N 8\n#define GREET(y) tellraw @a y\n#enum E A\n#credit "other"\n',
+      tags=["observer", "header"]),
+    P("include_again", 'function f(){ $i = INC; }', header='#include "inc"\n', files=INC_FILES, dir="hdr_proj", tags=["observer", "header"]),
+    P("header_edit", MORE_SRC, header=None, files=INC_FILES, dir="hdr_proj", tags=["observer", "fails"]),      # the header deleted, project unchanged
+    P("uninstall_fn", 'function uninstall(){ say "bye"; } function f(){ if ($x > 1) { say "p"; say "q"; } else { say "r"; say "s"; } }', tags=["observer"]),
+    # output-folder observers (disk build): stale output, #static folders, #copy, #override'd namespaces with existing folders
+    P("static_keep", MORE_SRC.replace('$i = INC; $j = INC2; ', '').replace('inccmd 4; ', ''),
+      header=HEADER_MORE.replace('#include "inc"\n', '') + '#static "keep"\n#static "keep2"\n#static "../otherns/keep3"\n', envs=["dev"],
+      pre_files=STALE, dir="static_proj", only=["CLI"], tags=["header", "mutator", "disk"]),
+    P("static_dropped", BODY, pre_files=STALE, dir="static_proj", only=["CLI"], tags=["observer", "disk"]),
+    P("static_one", BODY, header='#static "keep"\n#override otherns\n', pre_files=STALE, dir="static_proj", only=["CLI"], tags=["observer", "header", "disk"]),
+    P("copy_assets", 'function f(){ extra.x(); extra.y.z(); }', header='#copy "assets"\n#override extra\n', files=ASSETS, tags=["header", "mutator", "disk"]),
+    P("copy_user", 'function f(){ extra.x(); }', tags=["observer", "fails"]),
+    P("copy_twice", 'function f(){ say "c"; }', header='#copy "assets2"\n', files={"assets2/readme.txt": "R"}, tags=["observer", "header", "disk"]),
+    P("stale_out_no_cert", BODY, cert=None, pre_files={"data/TEST/function/stale.mcfunction": "say stale"}, only=["CLI"], tags=["fails", "disk"]),
+    # built-ins: explicit optional arguments, then the same calls relying on the class-level defaults
+    P("builtins_explicit", BUILTIN_ITEMS + 'function f(){ Item.give(bit, @a, 5); Item.clear(bit, @p, 3); Item.summon(bit, "1 2 3", 4); '
+      'JMC.logAny("x", prefix="P"); }', tags=["mutator"]),
+    P("builtins_default", BUILTIN_ITEMS + 'function f(){ Item.give(bit); Item.clear(bit); Item.summon(bit); JMC.logAny("x"); }', tags=["observer"]),
+    # diagnostics raised while the header's sets hold several elements (a message that lists one of them must not follow the hash order);
+    # they are also compiles that fail half-way through the header / the lexer with a populated Header
+    P("diag_command", 'function f(){ nocmd 1; }', header='#command mycmd\n#command mycmd2\n#command mycmd3\n#command zcmd4\n#command execute if mykind\n',
+      tags=["fails", "header", "sets", "mutator"]),
+    P("diag_resource", 'new nores(x.y) {"a":1}', header='#resource myres\n#resource my.res2\n#resource res3\n#resource zres4\n', tags=["fails", "header", "sets"]),
+    P("diag_link", 'function f(){ otherpack.api(); nolink.api(); }', header='#link otherpack\n#link linkpack\n#link pack3\n#override o1\n#override o2\n#override o3\n',
+      tags=["fails", "header", "sets"]),
+    P("diag_del", 'function f(){ scoreboard players set give obj 1; scoreboard players set tp obj 1; }', header='#del give\n#del say\n#del kill\n#del clear\n',
+      tags=["fails", "header", "sets"]),
+    P("diag_condition", 'function f(){ if (mykind entity @s || nokind entity @s) { say "x"; } }',
+      header='#command execute if mykind\n#command execute if mykind2\n#command execute if akind\n#command execute if zkind\n', tags=["fails", "header", "sets"]),
+    P("macro_in_header", 'function f(){ say "x"; }', header='#define GREET(x) say x\n#credit "c"\n#command mycmd\n#define GREET(y) say y\n',
+      tags=["fails", "header", "mutator"]),     # the second line is itself macro-expanded: it defines `say`
+    P("diag_override_dup", 'function f(){ say "x"; }', header='#override o1\n#override o2\n#link l1\n#override o1\n', tags=["fails", "header", "sets", "mutator"]),
+    P("diag_static_missing", 'function f(){ say "x"; }', header='#uninstall\n#nometa\n#static "nodir"\n', tags=["fails", "header", "mutator"]),
+    P("diag_include_twice", 'function f(){ say "x"; }', header='#include "inc"\n#include "sub/inc2"\n', files=INC_FILES, dir="hdr_proj", tags=["fails", "header", "mutator"]),
+    P("diag_uninstall_missing", 'function f(){ say "x"; }', header='#uninstall\n', tags=["fails", "header", "mutator"]),
+    # real multi-file projects
+    P("wild", 'say "main first"; import "lib/*"; say "main last"; function f(){ lib.alpha(); lib.sub.foxtrot(); }', files=LIB, tags=["disk", "multi", "sets"]),
+    P("wild_partial", 'say "main first"; import "lib/charlie"; import "lib/sub/deep/hotel.jmc"; import "lib/*"; import "lib2/*"; import "lib/sub/*"; say "main last";',
+      files=LIB, dir="wild", tags=["disk", "multi", "sets"]),
+    P("wild_header", 'import "lib2/*"; import "lib/*"; function f(){ GREET("w"); }', header=HEADER_ALL, envs=["dev"], cert=CUSTOM, files=LIB,
+      tags=["disk", "multi", "sets", "header", "sets-names"]),
+    P("wild_missing", 'import "lib/*"; import "nolib/*";', files=LIB, tags=["disk", "multi", "fails"]),
+    P("wild_dup", 'import "lib/*";', files=dict(LIB, **{"lib/sub/again.jmc": 'function lib.alpha() { say "dup"; }'}), tags=["disk", "multi", "fails", "sets"]),
 ]
 ENTRIES = ["TEST", "PYJMC", "CLI"]
 
 
+def fits(entry, pid):
+    by = {p["id"]: p for p in POOL}
+    return not by[pid].get("only") or entry in by[pid]["only"]
+
+
 def items(entry, pids):
     by = {p["id"]: p for p in POOL}
-    return [dict(by[i], entry=entry) for i in pids]
+    return [dict(by[i], entry=entry) for i in pids if fits(entry, i)]
 
 
-def run_seq(seq, hashseed="0", statediff=False):
-    return run_py(RUNNER, dict(seq=seq, statediff=statediff), timeout=600, hashseed=hashseed)
+def run_seq(seq, hashseed="0", statediff=False, **extra):
+    return run_py(RUNNER, dict(seq=seq, statediff=statediff, **extra), timeout=600, hashseed=hashseed)
 
 
 def same(a, b):
@@ -179,31 +277,52 @@ def main(tier: str) -> int:
     # ---------------------------------------------------------------- experiments
     ids = [p["id"] for p in POOL]
     rng = ck.rng
+    import time as _t
+    phase, _last = {}, [_t.time()]
+
+    def lap(name):
+        now = _t.time()
+        phase[name] = round(phase.get(name, 0) + now - _last[0], 1)
+        _last[0] = now
     # (1) baselines: every project alone in a fresh process, per entry point
-    base_jobs = [(e, i) for e in ENTRIES for i in ids]
+    base_jobs = [(e, i) for e in ENTRIES for i in ids if fits(e, i)]
     with ThreadPoolExecutor(max_workers=NCPU) as ex:
         base_res = list(ex.map(lambda ei: run_seq(items(ei[0], [ei[1]]))["results"][0], base_jobs))
     base = {ei: r for ei, r in zip(base_jobs, base_res)}
 
+    lap("baselines")
+    # (1b) the same again in a second fresh process (another temporary location, same seed): projects with real files / sets
+    again_jobs = [(e, i) for (e, i) in base_jobs if tier == "thorough" or set(next(p for p in POOL if p["id"] == i)["tags"]) & {"disk", "multi", "sets"}]
+    with ThreadPoolExecutor(max_workers=NCPU) as ex:
+        again_res = list(ex.map(lambda ei: run_seq(items(ei[0], [ei[1]]))["results"][0], again_jobs))
+    unstable = {ei: r for ei, r in zip(again_jobs, again_res) if not same(base[ei], r)}
+
+    lap("fresh_repeat")
     # (2) histories: A, B1, A, B2, … in one process (one process per entry point x A)
-    sensitive = [p["id"] for p in POOL if set(p["tags"]) & {"lacks-keys", "pyenv"}] + ["plain", "header_all"]
+    sensitive = [p["id"] for p in POOL if set(p["tags"]) & {"lacks-keys", "pyenv", "observer"}] + ["plain", "header_all"]
     hist_jobs = []
     for e in ENTRIES:
-        for a in ids:
+        eids = [i for i in ids if fits(e, i)]
+        for a in eids:
             if e == "TEST" or tier == "thorough":
-                bs = [b for b in ids]
-            else:
-                bs = sensitive + rng.sample([b for b in ids if b not in sensitive], 3)
+                bs = [b for b in eids]
+            else:       # always: the project itself again (autocompile), the other edits of the same folder, everything that observes
+                by_ = {p["id"]: p for p in POOL}
+                must = [b for b in eids if b == a or (by_[a].get("dir") and by_[b].get("dir") == by_[a].get("dir"))]
+                sens = [b for b in sensitive if fits(e, b)]
+                rest = [b for b in eids if b not in sens and b not in must]
+                bs = list(dict.fromkeys(must + sens + rng.sample(rest, min(6, len(rest)))))
             seq = []
             for b in bs:
                 seq += [a, b]
             hist_jobs.append((e, a, bs, seq))
     # mixed entry points and longer random histories
     mixed_jobs = []
-    for k in range(6 if tier == "quick" else 30):
+    for k in range(12 if tier == "quick" else 60):
         hist = [(rng.choice(ENTRIES), rng.choice(ids)) for _ in range(rng.randint(2, 6))]
         last = (rng.choice(ENTRIES), rng.choice(sensitive))
-        mixed_jobs.append(hist + [last])
+        job = [(e, i) if fits(e, i) else ("CLI", i) for e, i in hist + [last]]
+        mixed_jobs.append(job)
 
     def run_hist(job):
         e, a, bs, seq = job
@@ -231,76 +350,224 @@ def main(tier: str) -> int:
         if not same(base[(e, b)], res[-1]):
             leaks.append(dict(entry=e, history=job[:-1], short=job[-2:-1], project=b, alone=base[(e, b)], after=res[-1]))
 
+    lap("histories")
+    # (2c) the same project again, handing the compiler the very SAME argument objects (envs list, jmc.txt dict, JMCTestPack object)
+    arg_entries = ["TEST", "PYJMC"]
+    with ThreadPoolExecutor(max_workers=NCPU) as ex:
+        arg_res = list(ex.map(lambda e: run_seq([x for i in ids for x in items(e, [i, i])], reuse_args=True)["results"], arg_entries))
+    arg_diffs = []
+    n_args = 0
+    for e, res in zip(arg_entries, arg_res):
+        eids = [i for i in ids if fits(e, i)]
+        for k, i in enumerate(eids):
+            n_args += 1
+            if not same(base[(e, i)], res[2 * k + 1]) or res[2 * k].get("args_mutated") or res[2 * k + 1].get("args_mutated"):
+                arg_diffs.append((e, i))
+
+    lap("same_arguments")
     # (3) hash seeds: the whole pool in one process per seed (TEST entry; thorough: all entries), compared with seed 0
+    #     the disk entry points (PYJMC, CLI) always run the projects with real files / sets / headers; thorough: everything
     seeds = ["1", "2", "3", "random"]
-    seed_entries = ["TEST"] if tier == "quick" else ENTRIES
+    seed_entries = ENTRIES
+    seed_ids = {e: [i for i in ids if fits(e, i) and (e == "TEST" or tier == "thorough" or
+                                                      set(next(p for p in POOL if p["id"] == i)["tags"]) & {"disk", "multi", "sets", "header", "mutator"})]
+                for e in seed_entries}
     seed_jobs = [(e, s) for e in seed_entries for s in ["0"] + seeds]
     with ThreadPoolExecutor(max_workers=NCPU) as ex:
-        seed_res = list(ex.map(lambda es: run_seq(items(es[0], ids), hashseed=es[1])["results"], seed_jobs))
+        seed_res = list(ex.map(lambda es: run_seq(items(es[0], seed_ids[es[0]]), hashseed=es[1])["results"], seed_jobs))
     seed_by = dict(zip(seed_jobs, seed_res))
     seed_diffs = []
     n_seed = 0
     for e in seed_entries:
         for s in seeds:
-            for k, b in enumerate(ids):
+            for k, b in enumerate(seed_ids[e]):
                 n_seed += 1
                 if not same(seed_by[(e, "0")][k], seed_by[(e, s)][k]):
                     seed_diffs.append((e, s, b))
 
-    # (4) what does a run write?  (whole pool through each entry point, state diff)
+    lap("seeds")
+    # (4) what does a run write?  (whole pool through each entry point, state diff) — and, in the same processes, what does the pool
+    #     REACH: every set-iteration site of the regenerated table (how many elements), every set-typed attribute (how many elements),
+    #     every Header field (which projects leave it different from its reset value)
+    trace_spec = None
+    if t:
+        trace_spec = dict(sites=[dict(file=s["file"], func=s["func"], line=s["line"], end_line=s["end_line"], expr=s["expr"], evaluable=s["evaluable"])
+                                 for s in t["set_sites"]],
+                          set_attrs={a: o for a, (_, o) in t["set_attrs"].items()}, fields=list(t["header"]["cleared"]))
     with ThreadPoolExecutor(max_workers=NCPU) as ex:
-        sd = list(ex.map(lambda e: run_seq(items(e, ids), statediff=True)["statediff"], ENTRIES))
+        sdr = list(ex.map(lambda e: run_seq(items(e, ids), statediff=True, **(dict(trace=trace_spec) if trace_spec else {})), ENTRIES))
+    sd = [r["statediff"] for r in sdr]
     written = sorted({p for l in sd for p in (l or [])})
     outside = [p for p in written if classify_state(p, t) is None]
+    site_reach, attr_size, field_mutators = [], {}, {}
+    if t:
+        site_reach = [dict(site=f"{s['file']}:{s['func']}:{s['line']}:{s['expr'][:50]}", elem=s["elem"], cls=s["cls"], compiles_reached=0,
+                           compiles_with_2_or_more=0, max_elements=0, projects=[]) for s in t["set_sites"]]
+        for e, r in zip(ENTRIES, sdr):
+            for it, res in zip(items(e, ids), r["results"]):
+                tr = res.get("trace") or {}
+                for k, n in (tr.get("sites") or {}).items():
+                    sr = site_reach[int(k)]
+                    sr["compiles_reached"] += 1
+                    if n >= 2 or n < 0:         # n < 0: reached, size not measurable (expression with a call)
+                        sr["compiles_with_2_or_more"] += n >= 2
+                        if len(sr["projects"]) < 4 and f"{e}:{it['id']}" not in sr["projects"]:
+                            sr["projects"].append(f"{e}:{it['id']}")
+                    sr["max_elements"] = max(sr["max_elements"], n)
+                for a, n in (tr.get("set_sizes") or {}).items():
+                    attr_size[a] = max(attr_size.get(a, 0), n)
+                for f in tr.get("mutated") or []:
+                    field_mutators.setdefault(f, set()).add(it["id"])
 
+    lap("statediff_reach")
+    # (5) SELF-TEST of the pool (no verdict depends on it; it measures what the pair experiment could see): for every field of the
+    #     regenerated Header universe the reset of that ONE field is undone in the runner process (Header.__clear runs, then the field
+    #     gets its previous object back — exactly what a missing reset or an aliased / un-copied reset value does), the pool is compiled
+    #     twice in that process, and the second pass is compared with the baselines: `sensitivity[f]` = projects whose result differs.
+    sensitivity = {}
+    if t:
+        sens_fields = list(t["header"]["cleared"])
+        order_ = [i for i in ids]
+        def sens_run(job):
+            e, f = job
+            its = items(e, order_)
+            kw = dict(keep_pyenv=True) if f == "<PyEnv>" else dict(keep_field=f)
+            res = run_seq(its + its, **kw)["results"][len(its):]
+            return [it["id"] for it, r in zip(its, res) if not same(base[(e, it["id"])], r)]
+        jobs1 = [("TEST", f) for f in sens_fields + ["<PyEnv>"]]
+        with ThreadPoolExecutor(max_workers=NCPU) as ex:
+            r1 = list(ex.map(sens_run, jobs1))
+        for (e, f), diff in zip(jobs1, r1):
+            sensitivity[f] = dict(TEST=len(diff), examples=diff[:4])
+        jobs2 = [("CLI", f) for f in sens_fields if tier == "thorough" or not sensitivity[f]["TEST"]]
+        with ThreadPoolExecutor(max_workers=NCPU) as ex:
+            r2 = list(ex.map(sens_run, jobs2))
+        for (e, f), diff in zip(jobs2, r2):
+            sensitivity[f]["CLI"] = len(diff)
+            sensitivity[f]["examples"] = (sensitivity[f]["examples"] + ["CLI:" + d for d in diff])[:4]
+
+    lap("self_test")
     # ---------------------------------------------------------------- verdict
     found = False
     reported = set()
     by = {p["id"]: p for p in POOL}
 
-    def reproduces(hist, lk):
-        seq = [dict(by[i], entry=e) for e, i in hist] + [dict(by[lk["project"]], entry=lk["entry"])]
-        r = run_seq(seq)["results"][-1]
-        return None if same(lk["alone"], r) else r
+    import time as _time
+    repro_cache = {}
+    t_min0 = _time.time()
+    MIN_BUDGET = 60 if tier == "quick" else 240        # seconds spent on shortening histories; afterwards leaks are reported un-shortened
 
-    for lk in leaks:
+    def reproduces(hist, lk):
+        key = (tuple(map(tuple, hist)), lk["entry"], lk["project"])
+        if key not in repro_cache:
+            seq = [dict(by[i], entry=e) for e, i in hist] + [dict(by[lk["project"]], entry=lk["entry"])]
+            r = run_seq(seq)["results"][-1]
+            repro_cache[key] = None if same(lk["alone"], r) else r
+        return repro_cache[key]
+
+    # a project whose result differs between two FRESH processes (same seed, same input, other temporary folder) is not a function of
+    # its inputs at all; its history pairs are not examined (they would blame an innocent earlier compile)
+    alone_again = {}
+
+    def stable_alone(lk):
+        key = (lk["entry"], lk["project"])
+        if key in unstable:
+            return False
+        if key not in alone_again:
+            alone_again[key] = run_seq(items(key[0], [key[1]]))["results"][0]
+            if not same(lk["alone"], alone_again[key]):
+                unstable[key] = alone_again[key]
+        return key not in unstable
+
+    def report_unstable():
+        seen = set()
+        for (e, i), r in list(unstable.items()):
+            if i in seen or len(seen) >= 3:
+                continue
+            seen.add(i)
+            ck.violation(dict(kind="fresh-process-dependent", entry=e, project=dict(by[i], entry=e),
+                              expected="the same result in every fresh process (same PYTHONHASHSEED; only the temporary folder differs)",
+                              difference=describe_diff(base[(e, i)], r)))
+    if unstable:
+        found = True
+        report_unstable()
+        unstable_reported = set(unstable)
+    else:
+        unstable_reported = set()
+
+    causes = set()
+    for lk in sorted(leaks, key=lambda l: len(l["history"])):
         if len(reported) >= 5:
             break
-        # shortest reproducing history: one earlier compile if possible, else greedy removal from the full prefix
-        hist, r = None, None
-        for cand in [lk["short"]] + [[h] for h in dict.fromkeys(map(tuple, lk["history"]))]:
-            cand = [tuple(c) for c in cand]
-            if (cand[0][1], lk["project"]) in reported:
-                hist = "dup"
-                break
-            r = reproduces(cand, lk)
-            if r is not None:
-                hist = cand
-                break
-        if hist == "dup":
+        if not stable_alone(lk):
             continue
+        elems = list(dict.fromkeys(tuple(h) for h in lk["history"]))
+        # one report per causing project: a history that contains a project already reported as a cause is not examined again
+        if any(i in causes for _, i in elems):
+            continue
+        # shortest reproducing history: one earlier compile if possible (candidates tried in parallel), else greedy removal from the full prefix
+        hist, r = None, None
+        cands = list(dict.fromkeys([tuple(tuple(c) for c in lk["short"])] + [(h,) for h in elems]))
+        over = _time.time() - t_min0 > MIN_BUDGET
+        if not over:
+            with ThreadPoolExecutor(max_workers=NCPU) as ex:
+                rs = list(ex.map(lambda c: reproduces(list(c), lk), cands))
+            for c, rr in zip(cands, rs):
+                if rr is not None:
+                    hist, r = list(c), rr
+                    break
         if hist is None:
             cur = [tuple(h) for h in lk["history"]]
             r = reproduces(cur, lk)
             if r is None:
                 continue            # not reproducible: not reported
             k = 0
-            while k < len(cur) and len(cur) > 1:
-                trial = cur[:k] + cur[k + 1:]
-                r2 = reproduces(trial, lk)
-                if r2 is not None:
-                    cur, r = trial, r2
-                else:
+            while k < len(cur) and len(cur) > 1 and _time.time() - t_min0 <= MIN_BUDGET:
+                # drop a block (half, quarter, … one element) starting at k
+                step = max(1, (len(cur) - k) // 2)
+                done = False
+                while step >= 1:
+                    trial = cur[:k] + cur[k + step:]
+                    r2 = reproduces(trial, lk) if trial else None
+                    if r2 is not None:
+                        cur, r, done = trial, r2, True
+                        break
+                    step //= 2
+                if not done:
                     k += 1
             hist = cur
-        cause = hist[-1][1]
-        if any(c == cause for c, _ in reported) and len(hist) == 1:
-            continue                # one report per causing project
-        reported.add((cause, lk["project"]))
+        causes.update(i for _, i in hist)
+        reported.add((hist[-1][1], lk["project"]))
         found = True
         ck.violation(dict(kind="history-dependent", entry=lk["entry"], history=[dict(by[i], entry=e) for e, i in hist],
                           project=dict(by[lk["project"]], entry=lk["entry"]),
                           expected="the result of compiling the project alone in a fresh process", difference=describe_diff(lk["alone"], r)))
+    n_arg_reports = 0
+    for e, i in arg_diffs:
+        if n_arg_reports >= 3:
+            break
+        r = run_seq(items(e, [i, i]), reuse_args=True)["results"]
+        mutated = sorted(set(r[0].get("args_mutated") or []) | set(r[1].get("args_mutated") or []))
+        if same(r[0], r[1]) and not mutated:
+            continue
+        if not mutated and not same(r[0], run_seq(items(e, [i, i]))["results"][1]):
+            continue            # also differs with fresh argument objects: a history effect (reported above), not an argument effect
+        rec = dict(kind="same-arguments-dependent", entry=e, project=dict(by[i], entry=e), arguments_mutated=mutated,
+                   expected="compiling twice with the same argument objects gives the same result and leaves the arguments unchanged",
+                   difference=describe_diff(r[0], r[1]))
+        fid = "C12-pyjmc-envs-argument-emptied"
+        kn = {f["id"]: f for f in known_for(PROP)}
+        if e == "PYJMC" and mutated == ["envs"] and by[i]["envs"] and "#env" in (by[i]["header"] or "") and (fid in kn or fid in PROPOSED_KNOWN):
+            ck.known(fid, (kn.get(fid) or PROPOSED_KNOWN[fid])["what"])
+            continue
+        found = True
+        n_arg_reports += 1
+        ck.violation(rec)
+    if set(unstable) - unstable_reported:
+        found = True
+        for k in unstable_reported:
+            unstable.pop(k, None)
+        report_unstable()
     rep_seed = set()
     for e, s, b in seed_diffs:
         if b in rep_seed:
@@ -334,22 +601,50 @@ def main(tier: str) -> int:
                           what="the regenerated step lists are not history_free, or a set with str/Path elements is iterated in hash order"),
                      no_input=not found)
 
+    lap("verdict")
     ck.cov.update(dict(
-        evaluations=len(base_jobs) + n_pairs + n_seed, distinct_nontrivial=n_pairs + n_seed,
+        evaluations=len(base_jobs) + len(again_jobs) + n_pairs + n_seed + n_args, distinct_nontrivial=n_pairs + n_seed + len(again_jobs) + n_args,
+        phase_seconds=phase, fresh_process_repeats=len(again_jobs), same_argument_recompiles=n_args,
         rule="evaluation = one comparison of a project's result (file map or exception class+text) against its fresh-process/seed-0 result: "
              "(entry point, history, project) for histories A,B1,A,B2,… and random mixed-entry histories, (entry point, seed, project) for seeds; "
              "all are distinct tuples; non-trivial = the compared compile ran after at least one other compile or under a non-zero seed",
         samples=[dict(entry=e, history=[a], project=bs[0]) for e, a, bs, _ in hist_jobs[:3]] + [dict(mixed=[list(x) for x in mixed_jobs[0]])],
-        programs=len(POOL), pool=[dict(id=p["id"], tags=p["tags"]) for p in POOL], processes=len(base_jobs) + len(hist_jobs) + len(mixed_jobs) + len(seed_jobs) + 3,
+        programs=len(POOL), pool=[dict(id=p["id"], tags=p["tags"]) for p in POOL], processes=len(base_jobs) + len(again_jobs) + len(hist_jobs) + len(mixed_jobs) + len(seed_jobs) + 3,
         disagreements_checked=len(leaks) + len(seed_diffs), pairs=n_pairs, seed_comparisons=n_seed, seeds=["0"] + seeds,
         entry_points=ENTRIES, baseline_failures=sorted({f"{e}:{i}:{r['exc']}" for (e, i), r in base.items() if not r["ok"]}),
         fields=[" ".join(f) if isinstance(f, tuple) else f for f in t["fields"]] if t else [],
         steps={k: len(v) for k, v in t["entries"].items()} if t else {},
         set_sites=[dict(site=f"{s['file']}:{s['func']}:{s['expr'][:50]}", elem=s["elem"], use=s["use"], cls=s["cls"]) for s in t["set_sites"]] if t else [],
         header_only_check=t["header_only"] if t else None,
+        container_fields=[dict(field=f, reset=t["header"]["resets"][f]["text"], kind=t["header"]["resets"][f]["kind"],
+                               mutated_by_projects=len(field_mutators.get(f, ())), mutators=sorted(field_mutators.get(f, ()))[:4],
+                               missing_reset_seen_by_projects=sum(v for k, v in sensitivity.get(f, {}).items() if k in ("TEST", "CLI")),
+                               observers=sensitivity.get(f, {}).get("examples", []))
+                          for f in t["container_fields"]] if t else [],
+        scalar_fields=[dict(field=f, reset=t["header"]["resets"][f]["text"], mutated_by_projects=len(field_mutators.get(f, ())),
+                            missing_reset_seen_by_projects=sum(v for k, v in sensitivity.get(f, {}).items() if k in ("TEST", "CLI")))
+                       for f in t["header"]["cleared"] if f not in t["container_fields"]] if t else [],
+        pyenv_missing_reset_seen_by_projects=sensitivity.get("<PyEnv>", {}).get("TEST"),
+        fields_where_a_missing_reset_is_invisible_to_the_pool=sorted(f for f, v in sensitivity.items() if not (v.get("TEST") or v.get("CLI"))),
+        set_site_reach=site_reach,
+        set_sites_not_reached_with_2_elements=[r["site"] for r in site_reach if not r["compiles_with_2_or_more"] and r["max_elements"] >= 0
+                                               and not (r["compiles_reached"] and r["max_elements"] < 0)],
+        set_attribute_max_elements=dict(sorted(attr_size.items())),
+        seed_projects={e: len(v) for e, v in seed_ids.items()},
         globals_written=written, globals_written_outside_model=outside,
     ))
     return ck.finish()
+
+
+# proposed entry of known_findings.json (used until it is registered, or — better — until fixes/C12-pyjmc-envs-argument.patch is committed,
+# after which the failure no longer occurs and this entry should be deleted so that a regression is a VIOLATION)
+PROPOSED_KNOWN = {
+    "C12-pyjmc-envs-argument-emptied": dict(
+        id="C12-pyjmc-envs-argument-emptied", property="C12",
+        what="jmc.api.PyJMC stores the caller's `envs` list in Header().envs without copying it and `#env NAME` removes NAME from that list: "
+             "building again with the same list object compiles `#env NAME` to 0 instead of 1 (api/_py_jmc.py:81; the CLI and JMCTestPack copy)",
+        match=dict(entry="PYJMC", arguments_mutated=["envs"], project="passes envs and its header has #env")),
+}
 
 
 def replay(path: str) -> int:
@@ -368,5 +663,19 @@ def replay(path: str) -> int:
         print("expected : identical results")
         print("actual   :", "identical" if same(r0, r1) else json.dumps(describe_diff(r0, r1), indent=1)[:2000])
         return 0 if same(r0, r1) else 1
+    if rp.get("kind") == "same-arguments-dependent":
+        r = run_seq([rp["project"], rp["project"]], reuse_args=True)["results"]
+        mutated = sorted(set(r[0].get("args_mutated") or []) | set(r[1].get("args_mutated") or []))
+        print("project  :", rp["project"]["id"], "via", rp["entry"], "| compiled twice in one process with the same argument objects")
+        print("expected : identical results, arguments unchanged")
+        print("actual   :", "identical" if same(r[0], r[1]) else json.dumps(describe_diff(r[0], r[1]), indent=1)[:2000], "| arguments mutated:", mutated)
+        return 0 if same(r[0], r[1]) and not mutated else 1
+    if rp.get("kind") == "fresh-process-dependent":
+        rs = [run_seq([rp["project"]])["results"][0] for _ in range(6)]
+        bad = [r for r in rs[1:] if not same(rs[0], r)]
+        print("project  :", rp["project"]["id"], "via", rp["entry"], "| compiled alone in 6 fresh processes (PYTHONHASHSEED=0)")
+        print("expected : identical results")
+        print("actual   :", "identical" if not bad else json.dumps(describe_diff(rs[0], bad[0]), indent=1)[:2000])
+        return 1 if bad else 0
     print("replay file names no input (", rp.get("kind"), "):", rp.get("what"))
     return 1
